@@ -314,6 +314,46 @@ def cases(tier):
           nm = "impl%d%s_%s" % (impl, "" if reset_after is None else "_ra%d" % reset_after, pname(p))
           out.append(Case(PROP, "qkeras/qrecurrent.py::%s.call" % cname, nm, mk(p), replay_kind=None,
                           assumptions=ASSUME, term_mode=True))
+  # pooling layers: y = stock_pool(x * area) * q(1 / area) (QAveragePooling2D), sum(x) * q(1 / area) (global), then activation
+  def pooling(cls_name, with_q, act):
+    def scenario(ip):
+      s = Scen()
+      cls = ip.find("qkeras/qpooling.py::" + cls_name)
+      qf = qfun("average_quantizer")
+      attrs = {"average_quantizer": "set" if with_q else None, "average_quantizer_internal": qf if with_q else None,
+               "activation": qfun("act") if act else None, "pool_size": (2, 3), "data_format": "channels_last",
+               "keepdims": False,
+               "compute_pooling_area": Builtin("compute_pooling_area", lambda ip_, input_shape=None: 6)}
+      lay = Obj(cls, attrs, label=cls_name)
+      r = run_call(ip, ip.getattr(lay, "call"), [X])
+      s.claim("no_raise", r[0] == "return")
+      if r[0] != "return":
+        s.info["raised"] = str(r[1])
+        return s
+      got = r[1]
+      inv = 1.0 / 6
+      if cls_name == "QAveragePooling2D":
+        if with_q:
+          exp = T("mult", T("super(QAveragePooling2D).call", T("mult", X, 6)), T("average_quantizer", inv))
+        else:
+          exp = T("super(QAveragePooling2D).call", X)
+      else:
+        if with_q:
+          exp = T("mult", T("K.sum", X, axis=[1, 2], keepdims=False), T("average_quantizer", inv))
+        else:
+          exp = T("super(QGlobalAveragePooling2D).call", X)
+      if act:
+        exp = Term("act", (exp,))
+      if not (got == exp):
+        s.info["raised"] = "term mismatch: got %r expected %r" % (got, exp)
+      s.claim("term", got == exp)
+      return s
+    return scenario
+  for cn in ("QAveragePooling2D", "QGlobalAveragePooling2D"):
+    for wq_ in (True, False):
+      for act in (True, False):
+        out.append(Case(PROP, "qkeras/qpooling.py::%s.call" % cn, "q%d_a%d" % (wq_, act), pooling(cn, wq_, act),
+                        replay_kind=None, assumptions=ASSUME, term_mode=True))
   # QScaleShift tests the *_internal attributes directly
   def scaleshift(p):
     def scenario(ip):
